@@ -76,4 +76,17 @@ PROPS = {
         "level_text": "Exploration by generated timing configurations and histories. For every maintenance run: each key set that was due is re-issued exactly once (manifest number +1, equal to the CRL number), sets that were not due are untouched, nothing due means byte-identical repository, signed objects inside their re-issue margin are renewed, all windows contain the present (RP walk), numbers never decrease over the whole history, and the payload sets are unchanged. Sampling, not proof.",
         "level_note": "Trusted base: rpki decoding, the virtual clock, the pump. For steps in which commands were recorded for a CA the number increment is only bounded (at most commands+1), as several commands can re-issue within one task.",
     },
+    "C05": {
+        "level": "exploration",
+        "cases": {"quick": 1600, "thorough": 30000},
+        "rule": "cases = generated sequences of 3-15 (thorough: up to 30) configuration requests against a CA whose held resources also change (ROA deltas with 0-6 additions "
+        "and 0-5 removals mixing valid and invalid entries, implicit/explicit max length, out-of-range max length, AS0, duplicates inside one delta, same payload with another "
+        "comment, removals of absent payloads; ASPA updates and provider updates; BGPsec updates incl. an invalidly self-signed CSR; child add/update incl. empty, superset, "
+        "duplicate, unknown, trust-anchor child); each request is judged; distinct by hash of the case JSON; non-trivial iff at least one multi-entry request was refused and at least one request was accepted",
+        "floors": {"__nontrivial__": 0.50, "roa:accepted": 0.30, "roa:refused": 0.50, "aspa-providers:accepted": 0.10, "bgpsec:refused": 0.10, "child-add:accepted": 0.10},
+        "assumptions": W_ASSUME + ["held resources = union of the certificates of the CA's current keys, as the code documents", "error kinds are not compared, only accept / refuse and the resulting state"],
+        "technique": "property-based differential testing: accept/refuse verdict and resulting configuration of every generated request compared with a reference decision procedure written from the property text and the doc comments; refused requests must leave configuration, repository bytes and scheduled tasks unchanged",
+        "level_text": "Exploration by generated request sequences with a reference model as oracle (iff on the verdict, equality on the applied state, no-change on refusal). Tens of thousands of judged requests per run; sampling, not proof.",
+        "level_note": "Trusted base: the 150-line reference procedure in harness/src/props/c05.rs, rpki ResourceSet arithmetic. ca_child_update with the empty set is accepted by design (documented) and modelled so.",
+    },
 }
